@@ -100,7 +100,7 @@ pub fn gen_wo(g: &WithOriginal<Generics<GenericParam<TpRecv>>, syn::Generics>) -
 // ------------------------------------------------------------------------------------------- input rendering
 
 pub const VIS: [&str; 5] = ["", "pub", "pub(crate)", "pub(in crate::a)", "pub(super)"];
-pub const TYS: [&str; 5] = ["u8", "Vec<String>", "&'static str", "Option<Box<dyn Fn(u8) -> u8>>", "[u8; 4]"];
+pub const TYS: [&str; 7] = ["u8", "Vec<String>", "&'static str", "Option<Box<dyn Fn(u8) -> u8>>", "[u8; 4]", "(u8)", "((fn(u8) -> u8))"];     // incl. types written in parentheses
 pub const GENS: [(&str, &str); 5] = [
     ("", ""),
     ("<T>", ""),
